@@ -78,7 +78,7 @@ Definition QInv (ps0 : list bytes) (q : qco) (s : traph) : Prop :=
 (* what can be said of a yielded pair at the moment of the yield *)
 Definition qual (ps0 : list bytes) (s : traph) (l : bytes) (c : bool) : Prop :=
   exists P0 p d, In P0 ps0 /\ find p (tr s) = Some d /\ concat p = l /\ page d = true /\ crawled d = c /\
-                 under (lru_iter P0) p.
+                 under (lru_iter P0) p /\ (p = lru_iter P0 \/ we d = 0).
 
 (* nodes are never moved: a path keeps its block address *)
 Definition tree_ext (s s' : traph) : Prop :=
@@ -187,8 +187,11 @@ Proof.
            split; [exact HP0|]. split; [exact Hf0|]. split; [exact Ha0|]. apply Forall_app. auto.
         -- right. exists (pre ++ stem (rn_d x)), (crawled (rn_d x)). split; [reflexivity|].
            exists P0, (pp ++ [stem (rn_d x)]), (rn_d x). split; [exact HP0|]. split; [exact Hin|].
-           split; [symmetry; exact Ecur|]. apply andb_prop in Ey. destruct Ey as (_ & Hpg).
-           split; [exact Hpg|]. split; [reflexivity|exact Hu].
+           split; [symmetry; exact Ecur|]. apply andb_prop in Ey. destruct Ey as (Hrel & Hpg).
+           split; [exact Hpg|]. split; [reflexivity|]. split; [exact Hu|].
+           apply orb_prop in Hrel. destruct Hrel as [Hrel|Hrel].
+           ++ left. apply N.eqb_eq in Hrel. apply (proj2 Hok _ _ (rn_d x) d0 Hin Hf0). congruence.
+           ++ right. apply N.eqb_eq in Hrel. exact Hrel.
       * match goal with |- context [pagesq_step f ?Q s] => set (q1 := Q) end.
         assert (HQ1 : QInv ps0 q1 s).
         { split; [exact Hincl|]. right. exists P0, d0. cbn [q1 q_pend q_stack q_start app].
@@ -204,7 +207,7 @@ Qed.
 Lemma qual_spec : forall ps0 s a l c, Rcore s a -> Forall wf_lru ps0 -> qual ps0 s l c ->
   In (l, c) (a_pages a) /\ exists P0, In P0 ps0 /\ is_stem_prefix P0 l = true.
 Proof.
-  intros ps0 s a l c HC Hps (P0 & p & d & HP & Hf & <- & Hpg & Hcr & Hu).
+  intros ps0 s a l c HC Hps (P0 & p & d & HP & Hf & <- & Hpg & Hcr & Hu & _).
   pose proof (R_wf s a HC) as Hwf.
   destruct (wf_lru_of_path s p d Hwf Hf) as (_ & Hwl & Eit).
   destruct (find_nodeof s p d Hwf Hf) as (_ & Hn).
@@ -304,7 +307,7 @@ Lemma Forall2_set_nth_co : forall (Rl : coro -> coro -> Prop) cs0 cs i c',
   Forall2 Rl cs0 cs -> (forall c0, nth_error cs0 i = Some c0 -> Rl c0 c') ->
   Forall2 Rl cs0 (set_nth_co i c' cs).
 Proof.
-  intros Rl cs0 cs i c' H. revert i. induction H as [|c0 c l0 l Hc Hl IH]; intros i Hi; [constructor|].
+  intros Rl cs0 cs i c' H. revert i. induction H as [|c0 c l0 l Hc Hl IH]; intros i Hi; [destruct i; constructor|].
   destruct i as [|i]; cbn [set_nth_co].
   - constructor; [apply Hi; reflexivity|exact Hl].
   - constructor; [exact Hc|]. apply IH. intros c1 H1. apply Hi. exact H1.
